@@ -33,6 +33,12 @@ CLAIMED.update({
  'C18': dict(text='Action::Result/MatchingEntities set algebra is executed through the public API for every combination of truth values, presence of match sets and well-name choices (3+2 names over a 3-letter alphabet): AND = conjunction + intersection where set-less operands contribute none, OR = disjunction + union, ranges sorted and duplicate-free; Value::eval_cmp for every comparator with symbolic operands (scalar and per well); ActionX::ready/State::add_run as one inductive step from an arbitrary prior (count, last-run) state, deciding that an action is ready exactly when max_run, start_time and min_wait allow it - hence no history can exceed the limits.',
              note='condition tokenising/parsing and AST evaluation against a SummaryState/Context (wildcards, dates) and Actions::pending are outside; difftime stubbed as (double)a-(double)b; times within +-2^40 s', design='4/C18'),
 })
+CLAIMED.update({
+ 'C01': dict(text='The lexical layer of the parser (str::strip_comments/find_terminator/trim/fast_clean/del_after_first_slash, splitSingleRecordString) is executed on every 7-bit text up to the bound: layout rewrites (padding, trailing comment, separator kind/run length, text after the slash, line splitting) leave the cleaned text / token sequence unchanged and strip_comments equals a quote-aware reference; at record level the real ParserRecord::parse -> ParserItem::scan -> scan_item/StarToken/readValueToken path shows n*v = v...v, n* = 1*...1*, lone * = 1*, early record end = trailing defaults for int and string items with symbolic values.',
+             note='text <= 4 bytes per line (thorough 6), values of two symbolic digits/letters, 4 items; keyword recognition/size classes, INCLUDE, case folding, double/UDA tokens and whole decks outside; bytes >= 0x80 excluded (documented 7-bit tables)', design='4/C01'),
+ 'C20': dict(text='The kernels that touch untrusted bytes are executed on arbitrary byte strings (all 256 values) with the executor\'s memory model as oracle - every load/store/free is checked for bounds, lifetime and validity, allocations sized by untrusted counts are objects of symbolic size - plus "returns or throws a std::exception": parser text kernels (fast_clean, clean with a code keyword, slash/comment/trim/getline, RawRecord tokeniser, star and value tokens) and the unformatted Eclipse readers (all 24/48-byte header images incl. X231 and C0nn/stoi, array bodies with an arbitrary 64-bit element count).',
+             note='inputs bounded (4 bytes of text, 12-20 byte array bodies, first record head <= 32 bytes); views are sub-views of a NUL-terminated buffer (loader contract); EclipseState/Schedule/SummaryConfig construction, formatted result files and allocation failure outside; uninitialised reads are not flagged', design='4/C20'),
+})
 NA = {
 }
 ALL = ['C%02d' % i for i in range(1, 21)]
